@@ -384,6 +384,20 @@ mod tests {
     }
 
     #[test]
+    fn missing_semi_range_is_inside_source() {
+        // `pos..pos + 1` used to point past the end of the input, or into a character
+        for fea in ["feature liga { sub a by b }", "@a = [b]\u{e9};", "include(a)"] {
+            let (_out, errors, _errstr) = debug_parse_output(fea, root);
+            assert!(!errors.is_empty(), "{fea}");
+            for err in &errors {
+                let range = err.span();
+                assert!(range.end <= fea.len(), "{fea} {range:?}");
+                assert!(fea.is_char_boundary(range.start) && fea.is_char_boundary(range.end));
+            }
+        }
+    }
+
+    #[test]
     fn simple_value_record_def() {
         let fea = "valueRecordDef 123 foo;";
         let (out, errors, _errstr) = debug_parse_output(fea, root);
